@@ -564,7 +564,14 @@ impl Ctx {
         if let Some(n) = self.instances.get(&k) {
             return n.clone();
         }
-        let spec = spec_name_for(name, &s);
+        // `id__T_int32` can be the name of a function of the program, or of another instance
+        // (`first[X__B_Y, Z]` and `first[X, Y__B_Z]`): the instance gets a name of its own
+        let mut spec = spec_name_for(name, &s);
+        while !s.is_empty()
+            && (self.orig_fns.contains_key(&spec) || self.instances.values().any(|n| *n == spec))
+        {
+            spec.push('_');
+        }
         self.instances
             .insert((name.to_string(), key.clone()), spec.clone());
         let count = self.instance_counts.entry(name.to_string()).or_insert(0);
@@ -930,7 +937,15 @@ impl<'a> TypeMono<'a> {
                 args.iter().map(ty_compact).collect::<Vec<_>>().join("__")
             )
         };
-        let new_name = TastIdent::new(&format!("{}{}", name, suffix));
+        // `Box__int32` can be a type the program declares, or another instance's name
+        let mut new_name = TastIdent::new(&format!("{}{}", name, suffix));
+        while !args.is_empty()
+            && (self.enum_base.contains_key(&new_name)
+                || self.struct_base.contains_key(&new_name)
+                || self.map.values().any(|n| *n == new_name))
+        {
+            new_name.0.push('_');
+        }
         self.map.insert(key.clone(), new_name.clone());
         if args.iter().any(|ty| ty_size(ty) > MAX_INSTANCE_TYPE_SIZE) {
             // a type that mentions itself at an ever larger instance: stop expanding and report
